@@ -71,7 +71,7 @@ def check_url_params_fresh(rep, rule):
     ok = bool(values) and all(isinstance(v, ast.Call) and not (isinstance(v.func, ast.Name) and v.func.id == 'dict') for v in values)
     rep.check(rule, fkey(mp, 'values are conversions'), ok, 'every URL parameter value is the result of a converter call made in this call' if ok else
               'a URL parameter value is not a converter call result', route, values[0] if values else mp.node)
-    shared = [e for e in effects.effects_in(mp.node) if e.root in ('self', 'cls') or e.root in route.assigns]
+    shared = [e for e in effects.effects_in(mp.node) if e.root in ('self', 'cls') or e.root in mp.mod.assigns]
     reads_cache = [n for n in walk_body(mp.node) if isinstance(n, ast.Attribute) and isinstance(n.value, ast.Name) and n.value.id == 'self'
                    and n.attr not in ('regex', 'converters')]
     rep.check(rule, fkey(mp, 'no memo on the route'), not shared and not reads_cache,
